@@ -844,3 +844,223 @@ Proof.
   - eapply heap_rel_kept; [exact H | exact Ma | reflexivity].
   - destruct Ma as (_ & Mh & _). now rewrite Mh.
 Qed.
+
+(* ---------- handle I/O: delegated to the C02 refinement lemmas (Proofs/MemFileProof.v) ---------- *)
+Definition conv (r : ByteFile.pres) : pout :=
+  match r with
+  | PNone => PNoSlot
+  | POk => PSucc
+  | PErr c => PFail (if Nat.eqb c C_CLOSED then CClosed else COther)
+  | ByteFile.PBytes b e => PBytes b e
+  | PCount n => PNum n
+  | PPos n => PNum n
+  | PSize _ => PSucc
+  end.
+
+Definition io_err (e : err) : bool :=
+  match ek e with KClosed | KReadOnlyHandle | KNegative | KOutOfRange | KEOF | KUnexpectedEOF => true | _ => false end.
+Definition res_io (r : res) : Prop :=
+  match r with
+  | ROk | RData _ None | RCount _ None | RPos _ None => True
+  | RErr e | RData _ (Some e) | RCount _ (Some e) | RPos _ (Some e) => io_err e = true
+  | _ => False
+  end.
+
+Lemma mproj_conv o r : res_io r -> mproj o r = conv (proj o r).
+Proof.
+  destruct r as [| | |e| | |b [e|]|n [e|]|n [e|]| | |]; cbn; try tauto; try reflexivity;
+    destruct e as [k w]; destruct k; cbn; intros H; try discriminate H; reflexivity.
+Qed.
+
+Lemma f_read_io d h n : snd (f_read d h n) = RPanic \/ res_io (snd (f_read d h n)).
+Proof. unfold f_read. repeat match goal with |- context [if ?c then _ else _] => destruct c end; cbn; auto. Qed.
+Lemma f_readat_io d h n off : snd (f_readat d h n off) = RPanic \/ res_io (snd (f_readat d h n off)).
+Proof.
+  unfold f_readat. destruct (off <? 0); [right; reflexivity|].
+  pose proof (f_read_io d (set_at h off) n) as H. destruct (f_read d (set_at h off) n) as [h1 r]. cbn [snd] in *.
+  destruct r as [| | |e| | |b [e|]|n0 [e|]|n0 [e|]| | |]; cbn in *; auto. destruct (zlen b <? n); cbn; auto.
+Qed.
+Lemma f_write_io d h b : snd (f_write d h b) = RPanic \/ res_io (snd (f_write d h b)).
+Proof. unfold f_write. repeat match goal with |- context [if ?c then _ else _] => destruct c end; cbn; auto. Qed.
+Lemma f_writeat_io d h b off : snd (f_writeat d h b off) = RPanic \/ res_io (snd (f_writeat d h b off)).
+Proof.
+  unfold f_writeat. destruct (off <? 0); [right; reflexivity|].
+  pose proof (f_write_io d (set_at h off) b) as H. destruct (f_write d (set_at h off) b) as [[dd h1] r]. exact H.
+Qed.
+Lemma f_seek_io d h off wh : res_io (snd (f_seek d h off wh)).
+Proof. unfold f_seek. repeat match goal with |- context [if ?c then _ else _] => destruct c end; cbn; auto. Qed.
+Lemma f_truncate_io d h n : res_io (snd (f_truncate d h n)).
+Proof. unfold f_truncate. repeat match goal with |- context [if ?c then _ else _] => destruct c end; cbn; auto. Qed.
+
+(* handles keep their node and their directory offset under byte I/O *)
+Lemma f_read_href d h n : href (fst (f_read d h n)) = href h /\ hrdc (fst (f_read d h n)) = hrdc h.
+Proof. unfold f_read. repeat match goal with |- context [if ?c then _ else _] => destruct c end; cbn; auto. Qed.
+Lemma f_seek_href d h off wh : href (fst (f_seek d h off wh)) = href h /\ hrdc (fst (f_seek d h off wh)) = hrdc h.
+Proof. unfold f_seek. repeat match goal with |- context [if ?c then _ else _] => destruct c end; cbn; auto. Qed.
+
+Definition bh_of (x : phandle) : bh := mkBH (ppos x) (pclosed x) (pro x).
+Lemma hrel_of h x : hrel2 h x -> hrel h (bh_of x).
+Proof. intros (_ & Ha & _ & Hc & Hr). repeat split; auto. Qed.
+
+Lemma Rsim_set_handle s t i h x : Rsim s t -> hrel2 h x -> Rsim (set_handle s i h) (set_phandle t i x).
+Proof.
+  intros [W T N H Hs] Hx. split; auto.
+  - now apply WF_set_handle.
+  - cbn. now apply F2_set.
+Qed.
+
+Lemma Rsim_set_handle_same s t i h x : Rsim s t -> nth_error (phandles t) i = Some x -> hrel2 h x -> Rsim (set_handle s i h) t.
+Proof.
+  intros R Hn Hx. pose proof (Rsim_set_handle s t i h x R Hx) as [W T N H Hs]. destruct R as [_ _ _ _ _].
+  split; auto. cbn in Hs. now rewrite (list_set_same _ _ _ Hn) in Hs.
+Qed.
+
+Lemma Rsim_put_data s t r nd d pm dopt :
+  Rsim s t -> get_node s r = Some nd -> pinode t r = Some (IFile d pm) -> irel nd (IFile d pm) ->
+  Rsim (put_data s r dopt) (set_inode t r (IFile (dflt dopt d) pm)).
+Proof.
+  intros R Hn Hp Hi. destruct dopt as [d'|]; cbn [put_data dflt].
+  - apply Rsim_set; [exact R | apply (keeps_comp (with_mtime _) (with_data _)); [apply keeps_mtime | apply keeps_data] |].
+    intros n0 Hn0. rewrite Hn in Hn0. inversion Hn0; subst n0. cbn in Hi |- *. destruct Hi as (Hd & _ & Hpm). auto.
+  - destruct R as [W T N H Hs]. split; auto. eapply heap_rel_mheap; [reflexivity | | exact H].
+    unfold set_inode. cbn [pinodes]. apply list_set_same. exact Hp.
+Qed.
+
+(* the handle and its file, on both sides *)
+Lemma handle_file s t i h : Rsim s t -> nth_error (mhandles s) i = Some h -> file_handle_ok s i = true ->
+  exists x nd d pm, nth_error (phandles t) i = Some x /\ hrel2 h x /\ get_node s (href h) = Some nd /\
+                    pinode t (pino x) = Some (IFile d pm) /\ irel nd (IFile d pm) /\ ndata nd = d.
+Proof.
+  intros R Hh Hok. unfold file_handle_ok in Hok. rewrite Hh in Hok.
+  destruct (get_node s (href h)) as [nd|] eqn:Hn; [|discriminate]. apply negb_true_iff in Hok.
+  destruct (F2_nth _ _ _ i h (rs_handles _ _ R) Hh) as (x & Hx & Hr).
+  destruct (proj2 (rs_heap _ _ R) _ nd Hn) as (y & Hy & Hi). destruct Hr as (Ehr & Hr).
+  destruct y as [pm|d pm]; cbn in Hi; [destruct Hi; congruence|].
+  exists x, nd, d, pm. split; [exact Hx|]. split; [split; [exact Ehr | exact Hr]|]. split; [reflexivity|].
+  split; [now rewrite <- Ehr|]. split; [exact Hi | apply Hi].
+Qed.
+
+Ltac hop_start R Hwf Hw Hok h Hh :=
+  unfold wf_op_sim in Hwf; apply andb_true_iff in Hwf as [Hw Hok]; cbn [wf_op] in Hw;
+  unfold sim_raw; cbn [m_step_raw p_step]; unfold m_hop;
+  match goal with |- context [nth_error (mhandles ?s) ?i] =>
+    destruct (nth_error (mhandles s) i) as [h|] eqn:Hh;
+    [|rewrite (F2_nth_none _ _ _ i (rs_handles _ _ R) Hh); split; [exact R | reflexivity]] end.
+
+Lemma sim_hread s t i n : Rsim s t -> wf_op_sim s (HRead i n) = true -> sim_raw s t (HRead i n).
+Proof.
+  intros R Hwf. hop_start R Hwf Hw Hok h Hh. apply Z.leb_le in Hw.
+  destruct (handle_file s t i h R Hh Hok) as (x & nd & d & pm & Hx & Hr & Hn & Hp & Hi & Hd).
+  rewrite Hx, Hn, Hp, Hd.
+  pose proof (sim_read d h (bh_of x) n i (hrel_of h x Hr) Hw) as [Hnp Hsim].
+  destruct (f_read_io d h n) as [Hio|Hio]; [contradiction|].
+  pose proof (f_read_href d h n) as [Eh Er].
+  destruct (f_read d h n) as [h' r]. cbn [fst snd] in *.
+  rewrite (mproj_conv _ _ Hio). cbn [bh_of bclosed bpos bro] in Hsim.
+  destruct (pclosed x) eqn:Ecl.
+  - destruct Hsim as [-> Hpr]. rewrite Hpr. cbn [conv Nat.eqb C_CLOSED]. split; [eapply Rsim_set_handle_same; eauto | reflexivity].
+  - cbv zeta in Hsim. destruct Hsim as [Hrel Hpr]. rewrite Hpr. cbn [conv]. split; [|reflexivity].
+    apply Rsim_set_handle; [exact R|]. destruct Hr as (E1 & E2 & E3 & E4 & E5). destruct Hrel as (F1 & F2 & F3).
+    cbn in F1, F2, F3. repeat split; cbn; congruence.
+Qed.
+
+Lemma sim_hreadat s t i n off : Rsim s t -> wf_op_sim s (HReadAt i n off) = true -> sim_raw s t (HReadAt i n off).
+Proof.
+  intros R Hwf. hop_start R Hwf Hw Hok h Hh. apply Z.leb_le in Hw.
+  destruct (handle_file s t i h R Hh Hok) as (x & nd & d & pm & Hx & Hr & Hn & Hp & Hi & Hd).
+  rewrite Hx, Hn, Hp, Hd.
+  pose proof (sim_readat d h (bh_of x) n off i (hrel_of h x Hr) Hw) as (Hnp & Hfst & Hpr).
+  destruct (f_readat_io d h n off) as [Hio|Hio]; [contradiction|].
+  destruct (f_readat d h n off) as [h' r]. cbn [fst snd] in *. subst h'.
+  rewrite (mproj_conv _ _ Hio), Hpr. cbn [bh_of bclosed].
+  assert (Rs : Rsim (set_handle s i h) t) by (eapply Rsim_set_handle_same; eauto).
+  destruct (off <? 0); [split; [exact Rs | reflexivity]|]. destruct (pclosed x); split; try exact Rs; reflexivity.
+Qed.
+
+Lemma sim_write_gen s t i b o :
+  (m_step_raw s o = m_hop s i (fun h nd => let '(d, h', r) := f_write (ndata nd) h b in (put_data (set_handle s i h') (href h) d, r))) ->
+  (forall r, proj o r = proj (HWrite i b) r) -> (forall r, mproj o r = mproj (HWrite i b) r) ->
+  p_step t o = p_step t (HWrite i b) ->
+  Rsim s t -> file_handle_ok s i = true -> sim_raw s t o.
+Proof.
+  intros Em Epr Emp Ep R Hok. unfold sim_raw. rewrite Em, Ep. cbn [p_step]. unfold m_hop.
+  destruct (nth_error (mhandles s) i) as [h|] eqn:Hh;
+    [|rewrite (F2_nth_none _ _ _ i (rs_handles _ _ R) Hh); split; [exact R | rewrite Emp; reflexivity]].
+  destruct (handle_file s t i h R Hh Hok) as (x & nd & d & pm & Hx & Hr & Hn & Hp & Hi & Hd).
+  rewrite Hx, Hn, Hp, Hd.
+  assert (Hat : 0 <= hat h) by (destruct Hr as (_ & E & _); lia).
+  pose proof (sim_write d h (bh_of x) b (HWrite i b) (hrel_of h x Hr) Hat) as Hsim. cbv zeta in Hsim.
+  destruct (f_write_io d h b) as [Hio|Hio]; [destruct Hsim; contradiction|].
+  destruct (f_write d h b) as [[dopt h'] r]. cbn [fst snd] in *. destruct Hsim as [_ Hsim].
+  rewrite Emp, (mproj_conv _ _ Hio). cbn [bh_of bclosed bro] in Hsim.
+  destruct (pclosed x) eqn:Ecl.
+  - destruct Hsim as (-> & -> & Hpr). rewrite Hpr. cbn [conv put_data Nat.eqb C_CLOSED]. split; [eapply Rsim_set_handle_same; eauto | reflexivity].
+  - destruct (pro x) eqn:Ero.
+    + destruct Hsim as (-> & -> & Hpr). rewrite Hpr. cbn [conv put_data]. split; [eapply Rsim_set_handle_same; eauto | reflexivity].
+    + destruct Hsim as (Hdat & -> & Hpr). rewrite Hpr. cbn [conv]. split; [|reflexivity].
+      destruct Hr as (E1 & E2 & E3 & E4 & E5).
+      assert (Hpos : Z.to_nat (hat h) = ppos x) by (rewrite E2; apply Nat2Z.id).
+      rewrite Hpos in Hdat. rewrite <- Hdat, E1.
+      apply (Rsim_put_data _ (set_phandle t i _) (pino x) nd d pm dopt); auto.
+      * apply Rsim_set_handle; [exact R|]. repeat split; cbn; auto; try congruence. unfold zlen. lia.
+      * rewrite <- E1. exact Hn.
+Qed.
+
+Lemma sim_hwrite s t i b : Rsim s t -> wf_op_sim s (HWrite i b) = true -> sim_raw s t (HWrite i b).
+Proof. intros R Hwf. unfold wf_op_sim in Hwf. apply andb_true_iff in Hwf as [_ Hok]. now apply (sim_write_gen s t i b (HWrite i b)). Qed.
+Lemma sim_hwritestring s t i b : Rsim s t -> wf_op_sim s (HWriteString i b) = true -> sim_raw s t (HWriteString i b).
+Proof.
+  intros R Hwf. unfold wf_op_sim in Hwf. apply andb_true_iff in Hwf as [_ Hok]. apply (sim_write_gen s t i b (HWriteString i b)); auto.
+Qed.
+
+Lemma sim_hwriteat s t i b off : Rsim s t -> wf_op_sim s (HWriteAt i b off) = true -> sim_raw s t (HWriteAt i b off).
+Proof.
+  intros R Hwf. hop_start R Hwf Hw Hok h Hh.
+  destruct (handle_file s t i h R Hh Hok) as (x & nd & d & pm & Hx & Hr & Hn & Hp & Hi & Hd).
+  rewrite Hx, Hn, Hp, Hd.
+  pose proof (sim_writeat d h (bh_of x) b off (HWriteAt i b off) (hrel_of h x Hr)) as Hsim. cbv zeta in Hsim.
+  destruct (f_writeat_io d h b off) as [Hio|Hio]; [destruct Hsim; contradiction|].
+  destruct (f_writeat d h b off) as [[dopt h'] r]. cbn [fst snd] in *. destruct Hsim as (_ & -> & Hsim).
+  rewrite (mproj_conv _ _ Hio). cbn [bh_of bclosed bro] in Hsim.
+  assert (Rs : Rsim (set_handle s i h) t) by (eapply Rsim_set_handle_same; eauto).
+  destruct (off <? 0); [destruct Hsim as (-> & Hpr); rewrite Hpr; split; [exact Rs | reflexivity]|].
+  destruct (pclosed x); [destruct Hsim as (-> & Hpr); rewrite Hpr; split; [exact Rs | reflexivity]|].
+  destruct (pro x); [destruct Hsim as (-> & Hpr); rewrite Hpr; split; [exact Rs | reflexivity]|].
+  destruct Hsim as (Hdat & Hpr). rewrite Hpr. cbn [conv]. split; [|reflexivity].
+  destruct Hr as (E1 & _). rewrite <- Hdat, E1. apply (Rsim_put_data _ t (pino x) nd d pm dopt); auto. rewrite <- E1. exact Hn.
+Qed.
+
+Lemma sim_hseek s t i off wh : Rsim s t -> wf_op_sim s (HSeek i off wh) = true -> sim_raw s t (HSeek i off wh).
+Proof.
+  intros R Hwf. hop_start R Hwf Hw Hok h Hh.
+  destruct (handle_file s t i h R Hh Hok) as (x & nd & d & pm & Hx & Hr & Hn & Hp & Hi & Hd).
+  rewrite Hx, Hn, Hp, Hd.
+  pose proof (sim_seek d h (bh_of x) off wh (HSeek i off wh) (hrel_of h x Hr)) as Hsim. cbv zeta in Hsim.
+  pose proof (f_seek_io d h off wh) as Hio. pose proof (f_seek_href d h off wh) as [Eh Er].
+  destruct (f_seek d h off wh) as [h' r]. cbn [fst snd] in *. destruct Hsim as [_ Hsim].
+  rewrite (mproj_conv _ _ Hio). cbn [bh_of bclosed bpos bro] in Hsim.
+  destruct (pclosed x) eqn:Ecl.
+  - destruct Hsim as [-> Hpr]. rewrite Hpr. cbn [conv Nat.eqb C_CLOSED]. split; [eapply Rsim_set_handle_same; eauto | reflexivity].
+  - match type of Hsim with (if ?c then _ else _) => destruct c end.
+    + destruct Hsim as [-> Hpr]. rewrite Hpr. cbn [conv]. split; [eapply Rsim_set_handle_same; eauto | reflexivity].
+    + destruct Hsim as [Hrel Hpr]. rewrite Hpr. cbn [conv]. split; [|reflexivity].
+      apply Rsim_set_handle; [exact R|]. destruct Hr as (E1 & E2 & E3 & E4 & E5). destruct Hrel as (F1 & F2 & F3).
+      cbn in F1, F2, F3. repeat split; cbn; congruence.
+Qed.
+
+Lemma sim_htruncate s t i n : Rsim s t -> wf_op_sim s (HTruncate i n) = true -> sim_raw s t (HTruncate i n).
+Proof.
+  intros R Hwf. hop_start R Hwf Hw Hok h Hh.
+  destruct (handle_file s t i h R Hh Hok) as (x & nd & d & pm & Hx & Hr & Hn & Hp & Hi & Hd).
+  rewrite Hx, Hn, Hp, Hd.
+  pose proof (sim_truncate d h (bh_of x) n (HTruncate i n) (hrel_of h x Hr)) as Hsim. cbv zeta in Hsim.
+  pose proof (f_truncate_io d h n) as Hio.
+  destruct (f_truncate d h n) as [dopt r]. cbn [fst snd] in *. destruct Hsim as [_ Hsim].
+  rewrite (mproj_conv _ _ Hio). cbn [bh_of bclosed bro] in Hsim.
+  destruct (pclosed x); [destruct Hsim as (-> & Hpr); rewrite Hpr; split; [exact R | reflexivity]|].
+  destruct (pro x); [destruct Hsim as (-> & Hpr); rewrite Hpr; split; [exact R | reflexivity]|].
+  destruct (n <? 0); [destruct Hsim as (-> & Hpr); rewrite Hpr; split; [exact R | reflexivity]|].
+  destruct Hsim as (-> & Hpr). rewrite Hpr. cbn [conv]. split; [|reflexivity].
+  destruct Hr as (E1 & _). rewrite E1.
+  apply (Rsim_put_data s t (pino x) nd d pm (Some (ptrunc d (Z.to_nat n)))); auto. rewrite <- E1. exact Hn.
+Qed.
